@@ -266,8 +266,12 @@ def _run_chain(c, wdir, env):
         # csg_map through std::terminate)
         if "an error occurred" in msg or "terminate called after throwing" in msg:
             judged.append((pre + "reread", False))
+            runtogether = b == "xyz" and any(
+                ln.strip() and len(ln.split()) not in (1, 4) and
+                not ln.startswith("frame") for ln in open(
+                    os.path.join(wdir, "b1.xyz")).read().split("\n"))
             viol.append((pre + "reread-rejected" + (
-                "-wide-coordinates" if b == "xyz" and c["wide"] else ""),
+                "-wide-coordinates" if runtogether else ""),
                 "csg_map cannot read back "
                          "the file csg_map wrote (b->a leg fails)", witness(
                              {"output_tail": msg[-1500:], "b_file_head": open(
